@@ -413,10 +413,10 @@ def c03_streams(tier, rng):
 PROPS["C03"] = PropSpec(c03_streams,
                         _RULE % "extract(i) for IDs, locate of members, locateRank/extractRank for ranks",
                         _PART, "IDs of order-preserving kinds are lexicographic ranks (corollary of the refinement theorems)", _ASSUME)
-PROPS["C04"] = PropSpec(simple_dict_prop(c04_ops, PREFIX_KINDS, "prefix"),
+PROPS["C04"] = PropSpec(simple_dict_prop(c04_ops, PREFIX_KINDS, "prefix", phases=("built", "loaded", "loaded2")),
                         _RULE % "patterns: prefixes of members, one-byte extensions, members, longer than every member, below/above all members",
                         _PART, "prefix search equals the contiguous specification range", _ASSUME)
-PROPS["C05"] = PropSpec(simple_dict_prop(c05_ops, SUBSTR_KINDS, "substr"),
+PROPS["C05"] = PropSpec(simple_dict_prop(c05_ops, SUBSTR_KINDS, "substr", phases=("built", "loaded", "loaded2")),
                         _RULE % "patterns: substrings of length 1..3 of members, whole members, straddling two members, absent bytes",
                         ["FM-index backward search and XBW navigation are not modelled (D3): correspondence with the specification only"],
                         "glue (duplicate-skipping iterator, position→ID map) is modelled; the index algorithms are compared with Spec.substrIds", _ASSUME)
